@@ -482,6 +482,34 @@ def yaml_cases(thorough):
         add("cxx_template plain: %r" % v, dict(base, declarations=[{"decl": "void g(int x)", "cxx_template": v}]))
     for v in [[], [None], ["_a"], ["_a", "_b", "_c"], [3], [["a"]], [{"a": 1}]]:
         add("default_arg_suffix: %r" % v, dict(base, declarations=[{"decl": "void f(int x = 1, int y = 2)", "default_arg_suffix": v}]))
+    # multi-entry lists: a per-entry check must hold for EVERY entry, whatever its position (a good entry before
+    # or after a bad one, two bad ones), for every list-valued section
+    insts = ["<int>", "<double>", "<int,double>", "<double,long>", "<>", "<foo>", "<", "int", 3, None, "<int,int,int>"]
+    hosts = [("fn1", "template<typename T> void g(T x)", None), ("fn2", "template<typename T, typename U> void g(T x, U y)", None),
+             ("class1", "template<typename T> class V", [{"decl": "void m(T x)"}]), ("plain", "void g(int x)", None)]
+    for hname, hdecl, sub in hosts:
+        for a in insts:
+            for b in insts:
+                ent = {"decl": hdecl, "cxx_template": [{"instantiation": a}, {"instantiation": b}]}
+                if sub:
+                    ent["declarations"] = sub
+                add("cxx_template2 %s: %r %r" % (hname, a, b), dict(base, declarations=[ent]))
+        for a, b, c in [("<int>", "<int,double>", "<double>"), ("<int,double>", "<int>", "<double>"), ("<int>", "<double>", "<>")]:
+            add("cxx_template3 %s" % hname, dict(base, declarations=[{"decl": hdecl, "cxx_template": [{"instantiation": x} for x in (a, b, c)]}]))
+    gens = ["float x", "double x", "int", "(int x)", "float y", "", None, 3, "float x, int z", "double *x"]
+    for a in gens:
+        for b in gens:
+            add("fortran_generic2: %r %r" % (a, b), dict(base, declarations=[{"decl": "void f(double x)", "fortran_generic": [{"decl": a}, {"decl": b}]}]))
+    tms = [{"type": "T", "fields": {"base": "shadow"}}, {"type": "U", "fields": {"base": "struct"}}, {"type": "T"}, {"type": 3, "fields": {}},
+           {"type": "V", "fields": 3}, "T", None, {"type": "W", "fields": {"base": "vector"}}, {"type": "int", "fields": {"cpp_if": "x"}}]
+    for a in tms:
+        for b in tms:
+            add("typemap2: %r %r" % (a, b), dict(base, typemap=[a, b]))
+    ents = [{"decl": "void f()"}, {"decl": "void g(int x +intent(out))"}, {"decl": 3}, "x", None, {"block": True}, {"foo": 1},
+            {"decl": "class C", "declarations": 3}, {"decl": "void h(int)", "attrs": 3}, {"decl": "int v", "declarations": [{"decl": "int w"}]}]
+    for a in ents:
+        for b in ents:
+            add("declarations2: %r %r" % (a, b), dict(base, declarations=[a, b]))
     return cases
 
 
